@@ -275,6 +275,39 @@ struct Sp
     friend bool operator<(const Sp& a, const Sp& b) noexcept { return a.v < b.v; }
 };
 
+// Am: copy assignment is trivial (defaulted), move assignment is user-provided and marks its source: the two assignment kinds differ
+// in triviality, so a library that coalesces trivially assignable fields must decide per kind
+struct Am
+{
+    u32 v;
+    u32 gen;  // number of times this object was move-assigned from
+    explicit Am(u32 x) noexcept : v(x), gen(0) {}
+    Am(const Am&) = default;
+    Am& operator=(const Am&) = default;
+    Am& operator=(Am&& o) noexcept
+    {
+        v = o.v;
+        if (&o != this)
+        {
+            o.gen = o.gen + 1;
+        }
+        return *this;
+    }
+    friend bool operator==(const Am& a, const Am& b) noexcept { return a.v == b.v; }
+    friend bool operator!=(const Am& a, const Am& b) noexcept { return a.v != b.v; }
+    friend bool operator<(const Am& a, const Am& b) noexcept { return a.v < b.v; }
+};
+
+// Ce: trivially copyable, padding-free class whose == is NOT bytewise identity (the low bit is ignored): a representation-based
+// shortcut (memcmp, has_unique_object_representations) gives a different answer than the value type's own operators
+struct Ce
+{
+    u8 v;
+    friend bool operator==(const Ce& a, const Ce& b) noexcept { return (a.v >> 1) == (b.v >> 1); }
+    friend bool operator!=(const Ce& a, const Ce& b) noexcept { return (a.v >> 1) != (b.v >> 1); }
+    friend bool operator<(const Ce& a, const Ce& b) noexcept { return (a.v >> 1) < (b.v >> 1); }
+};
+
 // Bs<N>: trivially copyable N-byte value type of alignment 1 (layout family: object sizes that are not powers of two)
 template <usize NB>
 struct Bs
@@ -294,9 +327,17 @@ inline T mk(u64 x)
     {
         return Sp(static_cast<u32>(x));
     }
+    else if constexpr (std::is_same_v<T, Am>)
+    {
+        return Am(static_cast<u32>(x));
+    }
     else if constexpr (std::is_same_v<T, Cm>)
     {
         return Cm{static_cast<u8>(x)};
+    }
+    else if constexpr (std::is_same_v<T, Ce>)
+    {
+        return Ce{static_cast<u8>(x)};
     }
     else if constexpr (std::is_floating_point_v<T>)
     {
@@ -330,7 +371,7 @@ inline u64 val(const T& x)
         verif_assert(x.self == &x, 9010);  // the stored object is where its constructor put it
         return x.v;
     }
-    else if constexpr (std::is_same_v<T, Cm>)
+    else if constexpr (std::is_same_v<T, Cm> || std::is_same_v<T, Ce> || std::is_same_v<T, Am>)
     {
         return x.v;
     }
@@ -349,7 +390,7 @@ inline u64 val(const T& x)
 template <class T>
 inline bool code_eq(u64 a, u64 b)
 {
-    if constexpr (std::is_floating_point_v<T>)
+    if constexpr (std::is_floating_point_v<T> || std::is_same_v<T, Ce>)
     {
         return mk<T>(a) == mk<T>(b);
     }
@@ -359,8 +400,8 @@ inline bool code_eq(u64 a, u64 b)
     }
 }
 template <class T>
-inline constexpr u64 VMASK = (std::is_same_v<T, Tr> || std::is_same_v<T, Sp>) ? 0xffffffffull
-                             : std::is_same_v<T, Cm> ? 0xffull
+inline constexpr u64 VMASK = (std::is_same_v<T, Tr> || std::is_same_v<T, Sp> || std::is_same_v<T, Am>) ? 0xffffffffull
+                             : (std::is_same_v<T, Cm> || std::is_same_v<T, Ce>) ? 0xffull
                              : sizeof(T) >= 8         ? ~0ull
                                                       : ((1ull << (8 * (sizeof(T) & 7))) - 1);
 
